@@ -76,7 +76,7 @@ def pipeline_cases(spec, records, cid0):
             else:
                 fr = r["frame"]
                 src = solves.get(r.get("vfrom"))
-                given = r["op"] == "simulate"
+                given = r["op"] == "simulate" or bool(r.get("vfrom"))
                 if given and (src is None or src["model"] != mkey):
                     continue
                 events.append({"e": "simulate", "target": r["op"], "jit": bool(r["jit"]), "seed": r["seed"],
